@@ -31,6 +31,7 @@ static const char *ALIGN_TEXT = "go forward";
 
 static int16 AUD[60000];
 static float32 AUDF[60000];
+static int16 AUD_ORIG[60000];
 static size_t NAUD_ALL, N; /* N = samples of the selected excerpt */
 static int GRAM;
 
@@ -527,6 +528,7 @@ main(int argc, char **argv)
         return 2;
     NAUD_ALL = fread(AUD, 2, 60000, fp);
     fclose(fp);
+    memcpy(AUD_ORIG, AUD, sizeof AUD_ORIG);
     if (audio == 4) {
         memset(AUD, 0, sizeof AUD);
         N = 8000;
@@ -536,6 +538,8 @@ main(int argc, char **argv)
         N = LEN[audio] ? LEN[audio] : NAUD_ALL;
         memmove(AUD, AUD + off, N * 2);
     }
+    if (atoi(mc_arg(argc, argv, "--window", "0")) && N > 410)
+        N = 410 + 160 * ((N - 410) / 160); /* the audio ends exactly on the end of an analysis window */
     for (i = 0; i < N; i++)
         AUDF[i] = AUD[i] / 32768.0f;
     {
@@ -550,6 +554,11 @@ main(int argc, char **argv)
     D = new_decoder();
     if (!D || set_grammar() < 0)
         return 2;
+    if (atoi(mc_arg(argc, argv, "--prefull", "0"))) {
+        /* the decoder has heard the whole recording in ONE full-utterance call before: buffers sized by that call stay that size */
+        if (decoder_start_utt(D) < 0 || decoder_process_int16(D, AUD_ORIG, NAUD_ALL, 0, 1) < 0 || decoder_end_utt(D) < 0)
+            return 2;
+    }
     /* reference: one streaming call */
     memset(&p0, 0, sizeof p0);
     snprintf(cd, sizeof cd, "reference run");
@@ -610,6 +619,23 @@ main(int argc, char **argv)
             e.cut[0] = c;
             add_plan(&e);
         }
+    }
+    if (atoi(mc_arg(argc, argv, "--lastpiece", "0"))) {
+        /* everything but the last m samples, then those: the last call completes (or just fails to complete) the last window */
+        static const size_t ms[] = { 1, 2, 50, 100, 159, 160, 161, 300, 409, 410 };
+        size_t k;
+        int v;
+        for (k = 0; k < sizeof ms / sizeof *ms; k++)
+            for (v = 0; v < 2; v++) {
+                plan_t e;
+                if (ms[k] >= N)
+                    continue;
+                memset(&e, 0, sizeof e);
+                e.ncut = 1;
+                e.cut[0] = N - ms[k];
+                e.isfloat[0] = e.isfloat[1] = v;
+                add_plan(&e);
+            }
     }
     if (atoi(mc_arg(argc, argv, "--fullutt", "0"))) {
         /* every length in the last 170 samples: every remainder of the length modulo the frame shift */
